@@ -78,6 +78,14 @@ def assemble_seq(seq):
     return b"f __module__\0" + body + b"e\0"
 
 
+def carries(err, msg):
+    """The report must carry the message of the failure: the foreign function's own text, or - for a missing library / symbol, whose
+    wording belongs to the interpreter and is free - the established text or at least the name of what is missing."""
+    alts = {"Could not open FFI Library": [".missing", "libffiprobe"], "Could not find symbol": ["no_such_symbol"]}
+    return msg in err or any(a in err for a in alts.get(msg, []))
+
+
+
 def expected_seq(seq):
     """-> (stdout lines, failing step index or None, message fragment)"""
     out = []
@@ -262,7 +270,7 @@ class C19(Check):
             else:
                 if lines != exp:
                     bad("output-before-fault", f"expected {exp} before the failing call, got {lines}")
-                if msg not in res.err:
+                if not carries(res.err, msg):
                     bad("message-lost", f"error text does not carry {msg!r}")
         return {"outcome": "seq-ok" if failing is None else "seq-err", "viol": viol, "nontrivial": True, "tags": ["seq"]}
 
@@ -288,7 +296,7 @@ class C19(Check):
             else:
                 if "SENTINEL" in res.out or lines:
                     bad("ran-on", f"output after / around the failing call: {lines}")
-                if msg not in res.err:
+                if not carries(res.err, msg):
                     bad("message-lost", f"error text does not carry {msg!r}")
         return {"outcome": ("pos-ok" if func in ("echo", "last") else "pos-err") + ("-DIFF" if viol else ""), "viol": viol,
                 "nontrivial": True, "tags": ["pos", f"pos-{position}"]}
@@ -325,7 +333,7 @@ class C19(Check):
             if res.exit != 0 or lines != ["Str:[int:7]", "Str:SENTINEL"]:
                 bad("wrong-library", f"the named file exists and must be the one called; got {lines} exit {res.exit} {res.err[-160:]}")
         else:
-            if res.exit == 0 or res.cls != "error" or "Could not open FFI Library" not in res.err or lines:
+            if res.exit == 0 or res.cls != "error" or not driver.runtime_banner(res) or lines:
                 bad("missing-library-not-reported", f"the named file does not exist (only `{sibling}` does); got {lines} exit {res.exit} ({res.cls})")
         return {"outcome": f"lib-{kind}" + ("-DIFF" if viol else ""), "viol": viol, "nontrivial": True, "tags": ["lib", f"lib-{kind}"]}
 
@@ -381,9 +389,9 @@ class C19(Check):
                 bad("fault-not-error", f"{func}: expected run-time error exit 1, got {res.cls} ({res.exit})")
             if "SENTINEL" in res.out:
                 bad("ran-on", f"{func}: an instruction after the failing call_lib ran (sentinel printed)")
-            if msg not in res.err:
+            if not carries(res.err, msg):
                 bad("message-lost", f"{func}: error text does not carry {msg!r}")
-            if "FATAL RUNTIME ERROR" not in res.err:
+            if not driver.runtime_banner(res):
                 bad("no-banner", f"{func}: no run-time error banner")
             outcome = f"{func}-err" if not viol else f"{func}-bad"
         return {"outcome": outcome, "viol": viol, "nontrivial": len(vec) >= 1,
